@@ -376,6 +376,16 @@ type shardResult struct {
 	Assume    []string
 }
 
+// Abort finishes the run from a monitor goroutine while an execution is stuck for good: the evidence (or the shard
+// result) is written, the verdict printed, and the process exits (a shard with code 3, which its parent accepts).
+func (r *Run) Abort(c Coverage) {
+	r.Finish(c)
+	if r.shardOut != "" {
+		os.Exit(3)
+	}
+	os.Exit(2) // unreachable when a violation or engine error was reported (Finish exits 1 / 2 itself)
+}
+
 func (r *Run) writeShard(c Coverage) {
 	res := shardResult{Cov: c, Samples: r.samples, EngineErr: r.engineErr, Assume: r.Assume}
 	for k, v := range r.allViol {
@@ -431,6 +441,9 @@ func (r *Run) RunShards(n int) bool {
 	for i, j := range jobs {
 		err := j.cmd.Wait()
 		bz, rerr := os.ReadFile(j.out)
+		if ee, ok := err.(*exec.ExitError); ok && ee.ExitCode() == 3 && rerr == nil {
+			err = nil // the shard aborted itself after reporting (a stuck execution cannot be ended from inside)
+		}
 		if err != nil || rerr != nil {
 			tail := j.buf.String()
 			if len(tail) > 1500 {
